@@ -81,20 +81,23 @@ STRUCTS = {
     "item2":     {"spaces": [("P", [], "i, j=1")], "focus": "P", "pnames": ["i", "j"]},
     "item2r":    {"spaces": [("P", [], "i, j")], "focus": "P", "pnames": ["i", "j"]},
     "itemnest":  {"spaces": [("P", [], "i"), ("P.Q", [], "j")], "focus": "P.Q", "pnames": ["i", "j"]},
+    # nested parametrised space whose parameter has the SAME name as the enclosing one (the inner value wins)
+    "itemnestsame": {"spaces": [("P", [], "i"), ("P.Q", [], "i")], "focus": "P.Q", "pnames": ["i"]},
     "itemchild": {"spaces": [("P", [], "i"), ("P.T", [], None)], "focus": "P.T", "pnames": ["i"]},
     "itembase":  {"spaces": [("A", [], None), ("P", ["A"], "i")], "focus": "A", "pnames": [], "item": True,
                   "late_params": ["i"]},
     "subitem":   {"spaces": [("A", [], None), ("A.P", [], "i")], "focus": "A.P", "pnames": ["i"]},
 }
 STRUCT_ORDER = ["static", "nested", "nested3", "inh1", "inh1o", "inh2", "inh3", "item1", "item1d", "item2",
-                "item2r", "itemnest", "itemchild", "itembase", "subitem"]
+                "item2r", "itemnest", "itemnestsame", "itemchild", "itembase", "subitem"]
 # simpler structures to try while shrinking
 SIMPLER = {
     "nested": ["static"], "nested3": ["static", "nested"], "inh1": ["static"], "inh1o": ["static", "inh1"],
     "inh2": ["static", "inh1"], "inh3": ["static", "inh1", "inh1o"], "item1": ["static"],
     "item1d": ["static", "item1"], "item2": ["static", "item1", "item1d"],
     "item2r": ["static", "item1", "item1d"],
-    "itemnest": ["static", "item1", "item1d", "nested"], "itemchild": ["static", "item1", "item1d", "nested"],
+    "itemnest": ["static", "item1", "item1d", "nested"],
+    "itemnestsame": ["static", "item1", "item1d", "nested", "itemnest"], "itemchild": ["static", "item1", "item1d", "nested"],
     "itembase": ["static", "inh1", "item1", "item1d"], "subitem": ["static", "item1", "item1d", "nested"],
     "static": [],
 }
@@ -227,6 +230,10 @@ STMT_CTX = {
     "try":         lambda E: ["try:", "    return %s" % E("x"), "except ZeroDivisionError as e1:",
                               "    return len(str(e1))", "finally:", "    pass"],
     "shadowbuiltin": lambda E: ["len = %s" % E("x"), "return len + 1"],
+    # a local / parameter named like a cells of the space and SUBSCRIPTED (cells[x] is rewritten to a call)
+    "shadowlocalsub": lambda E: ["z = [10, 20, 30, %s]" % E("x"), "return z[x] + z[3]"],
+    "shadowforsub": lambda E: ["t1 = %s" % E("x"), "for z in ([1, 2], [3, 4]):", "    t1 += z[0]", "return t1"],
+    "shadowlamsub": lambda E: ["return (lambda z: z[1])([0, %s])" % E("x")],
     "paramshadow": lambda E: ["return %s + y" % E("x")],           # signature g(x, y=7): y is also a ref name
     "shadowdefparam": lambda E: ["def inner(f):", "    return f + 1", "return inner(x) + %s" % E("x")],
     "shadowdefname": lambda E: ["def z(p1):", "    return p1 + 1", "return z(%s)" % E("x")],
@@ -251,7 +258,7 @@ STMT_CTX = {
     "with":        lambda E: ["import contextlib", "with contextlib.nullcontext():", "    return %s" % E("x")],
 }
 STMT_ORDER = list(STMT_CTX)
-CTX_NEEDS = {"shadowlocal": ["z"], "shadowcomp": ["f"], "shadowcompr": ["r"], "shadowlam": ["f"],
+CTX_NEEDS = {"shadowlocalsub": ["z"], "shadowforsub": ["z"], "shadowlamsub": ["z"], "shadowlocal": ["z"], "shadowcomp": ["f"], "shadowcompr": ["r"], "shadowlam": ["f"],
              "paramshadow": ["y"], "shadowdefparam": ["f"], "shadowdefname": ["z"]}
 # contexts that exercise the same translation step: while shrinking, the first member is tried for the others
 CTX_FAMILY = {"genthencomp": ["lamthencomp"], "defthencomp": ["lamthencomp"], "compthendef": ["compthenlam"],
